@@ -18,6 +18,7 @@ EXPLANATION = (
     "arithmetically from several minimisers (mean, midpoint) need not be a minimiser and is reported; the truncated quantity is "
     "(p*len)/100 evaluated product-first (floor makes the floating-point rounding order observable). A cast applied before the clamp must hold every rounded value (int/int64/float; a narrower type wraps out-of-range codes before they can saturate). C18.4: no late binding of gv. Not decided: distribution-"
     "dependent behaviour.")
+EXPLANATION += (' Added after the audit wave: C18.3 the lag-differences of shortest_int are written in the form defined for every lag (sorted[lag:] - sorted[:len-lag]); `[:-lag]` is the empty slice for lag 0, i.e. for percent*len < 100.')
 TRUSTED = ["numpy.round/clip/sort/argmin semantics"]
 
 
